@@ -25,6 +25,13 @@ def generic_signature(spec, rule, msg):
     """Shapes of recorded world_unbuildable findings that are independent of the property being checked."""
     if rule != "world_unbuildable" or spec is None:
         return None
+    if "duplicate argument" in str(msg):
+        for fs in spec["files"]:
+            for s in fs.get("services", ()):
+                for m in s["methods"]:
+                    flat = {x.strip() for sg in m.get("signatures", []) for x in sg.split(",") if x.strip()}
+                    if flat & {"request", "retry", "timeout", "metadata"}:
+                        return "flattened parameter named like a parameter of the client method itself (request, retry, timeout, metadata)"
     if "NameError" in str(msg):
         home = {}
         for fs in spec["files"]:
